@@ -198,7 +198,7 @@ func judge(t *term, prefix string) (v verdict) {
 	}
 	v.want = showVal(want)
 	v.wantTr = r.trace
-	v.got = runSlip(v.text, 50*r.steps+10000)
+	v.got = runSlip(v.text, slipLimit(r.steps))
 	switch {
 	case v.got.runaway:
 		v.kind = "runaway"
@@ -216,6 +216,11 @@ func judge(t *term, prefix string) (v verdict) {
 	return
 }
 
+// slipLimit bounds slip's work on a program by the reference's: the reference counts every evaluation (atoms
+// included), slip's interrupt check only fires on function forms, so a conforming run needs fewer than refSteps.
+// A run that exceeds 4x that plus a margin is reported as runaway (deep runaway recursion is very slow to unwind).
+func slipLimit(refSteps int) int { return 4*refSteps + 2000 }
+
 func clip(tr []string) string {
 	if 60 < len(tr) {
 		return strings.Join(tr[:60], ",") + fmt.Sprintf(",…(%d)", len(tr))
@@ -227,7 +232,7 @@ func (v *verdict) describe() string {
 	got := ""
 	switch {
 	case v.got.runaway:
-		got = "does not terminate within 50x the reference's step count"
+		got = "still running after 4x the reference's evaluation count (+2000)"
 	case v.got.err != nil:
 		got = "signals " + v.got.err.String() + " after trace [" + clip(v.got.trace) + "]"
 	default:
@@ -568,7 +573,11 @@ func attribute(t *term, prefix string, whole *verdict) (out []engine.Failure) {
 			return
 		}
 	}
-	core, cv := minimise(rest, prefix, 300)
+	budget := 300
+	if whole.kind == "runaway" {
+		budget = 40 // every probe that still runs away is slow
+	}
+	core, cv := minimise(rest, prefix, budget)
 	d := cv.describe()
 	if core.String() != t.String() {
 		d += from
@@ -665,7 +674,7 @@ func bench(arg string) string {
 		_, rerr := r.run(p.forms)
 		t3 := time.Now()
 		if rerr == "" {
-			runSlip(text, 50*r.steps+10000)
+			runSlip(text, slipLimit(r.steps))
 		}
 		t4 := time.Now()
 		res := exec(strings.Replace(s, "p|", "p|", 1))
